@@ -97,6 +97,31 @@ func vCAS(exp, x int) opSpec {
 			return res{codes.OK, x}
 		}}
 }
+
+// vCASCheck: a write that brings BOTH kinds of precondition (an expected value and a check callback), in either
+// order: it succeeds only if both held at the instant of the write.
+func vCASCheck(exp, x, limit int, checkFirst bool) opSpec {
+	n := fmt.Sprintf("CAS(%d->%d)+IfBelow(%d)", exp, x, limit)
+	if checkFirst {
+		n = fmt.Sprintf("IfBelow(%d)+CAS(%d->%d)", limit, exp, x)
+	}
+	return opSpec{n,
+		func(e env) res {
+			opts := []resource.WriteOption{resource.WithExpectedValue(msg(exp)), below(limit)}
+			if checkFirst {
+				opts[0], opts[1] = opts[1], opts[0]
+			}
+			return mk(e.val.Set(msg(x), opts...))
+		},
+		func(s *state) res {
+			if s.v != exp || s.v >= limit {
+				return res{codes.FailedPrecondition, -1}
+			}
+			s.v = x
+			return res{codes.OK, x}
+		}}
+}
+
 func vInc() opSpec {
 	return opSpec{"Inc",
 		func(e env) res { return mk(e.val.Set(msg(0), inc)) },
@@ -493,6 +518,13 @@ func main() {
 	add(true, state{}, -1, -1, one(vSetOnce(1)), one(vAddFresh(5)))
 	add(true, state{}, 2, -1, one(vAddFresh(1)), one(vAddFresh(5)), one(vAddFresh(10)))
 	add(true, state{}, 2, -1, one(vSetOnce(1)), []opSpec{vAddFresh(5), vAddFresh(10)})
+
+	// ---- both kinds of precondition on one write
+	for _, first := range []bool{false, true} {
+		add(true, state{true, 0}, -1, -1, one(vCASCheck(0, 7, 5, first)), one(vInc()))
+		add(true, state{true, 0}, -1, -1, one(vCASCheck(0, 7, 0, first)), one(vSet(5)))
+		add(true, state{true, 0}, -1, -1, one(vCASCheck(1, 7, 5, first)), one(vInc()))
+	}
 
 	// ---- Value, 2 threads: all pairs
 	vops := []opSpec{vSet(5), vCAS(0, 7), vInc(), vIncBelow(1), vAdd(1)}
